@@ -944,14 +944,20 @@ class Wtp:
 
             while True:
                 prev2 = text
-                # Encode links.
+                # Encode links and external links ([something]) until
+                # neither finds anything more: a link whose label holds a
+                # bracketed construct ([[a|b [c] d]]) can only be encoded
+                # after that construct, and it must be encoded before the
+                # argument reference or template around it is split at
+                # its bars.
                 while True:
+                    prev3 = text
                     text = LINKS_RE.sub(repl_link, text)
-                    if text == prev2:
+                    if text != prev3:
+                        continue
+                    text = EXTERNAL_LINKS_RE.sub(repl_extlink, text)
+                    if text == prev3:
                         break
-                    prev2 = text
-                # Encode external links: [something]
-                text = EXTERNAL_LINKS_RE.sub(repl_extlink, text)
                 # Encode template arguments: {{{arg}}}, {{{..{|..|}..}}}
                 text = TEMPLATE_ARGUMENTS_RE.sub(repl_arg, text)
                 if text == prev2:
